@@ -28,6 +28,15 @@ def class_funcs(ctx, mod, cls):
 
 def run(ctx):
     ctx.rule('C20', lambda: _run(ctx))
+    sources(ctx)
+
+
+def sources(ctx, prefix='C20'):
+    '''The two sources behave as the join assumes: the block processor reports every height it reaches (also for blocks that
+    touch nothing), the mempool tracker reports every completed refresh with the height its listing belongs to.'''
+    from . import c07, c09
+    ctx.rule(f'{prefix}.BLOCKSOURCE', lambda: c07.rule_flushnotify(ctx), 4)
+    ctx.rule(f'{prefix}.MEMPOOLSOURCE', lambda: c09.rule_refresh_handover(ctx, f'{prefix}.MEMPOOLSOURCE'), 3)
 
 
 def _run(ctx):
